@@ -2,7 +2,7 @@
 import ast
 
 from ..core import AnalysisError, src, qualname_of
-from ..pysym import SymExec, show, subterms, subterms_guarded
+from ..pysym import SymExec, show, subterms, subterms_guarded, all_calls
 from ..rules_pyx import N, C, A
 from ..pygrammar import combinator_functions, returned_strings
 from .. import symcat as sc
@@ -42,10 +42,10 @@ def grammar_labels(repo):
         u = set()
         au = mod.get('apply_unary_rules')
         for st, o in SymExec(au, unroll=1).run():
-            for e in st.events:
-                if e[0] == 'call' and e[1][1] == N('CombinatorResult'):
-                    kw = dict(e[1][3])
-                    pos = list(e[1][2])
+            for call in all_calls(st, N('CombinatorResult')):
+                if True:
+                    kw = dict(call[3])
+                    pos = list(call[2])
                     ss = kw.get('op_string', pos[1] if len(pos) > 1 else None)
                     yy = kw.get('op_symbol', pos[2] if len(pos) > 2 else None)
                     u |= {(a, b_) for a in label_values(mod, ss) for b_ in label_values(mod, yy)}
